@@ -136,6 +136,8 @@ type StakeRef struct {
 }
 
 type Chain struct {
+	// API: when set, the ABCI calls go through it (e.g. the node's local client) instead of straight to App.
+	API      abcitypes.Application
 	Dir      string
 	Gen      *Genesis
 	App      *node.RigoApp
@@ -157,6 +159,13 @@ type Chain struct {
 	BlockTxOK  int
 	Dead       bool // a consensus call panicked: the node is gone
 	DeadReason string
+}
+
+func (c *Chain) api() abcitypes.Application {
+	if c.API != nil {
+		return c.API
+	}
+	return c.App
 }
 
 func appConfig(dir string) *cfg.Config {
@@ -242,7 +251,7 @@ func (c *Chain) Info() (rec CallRec) {
 	rec = CallRec{Kind: "Info", H: c.Height}
 	func() {
 		defer catch(&rec)
-		r := c.App.Info(abcitypes.RequestInfo{})
+		r := c.api().Info(abcitypes.RequestInfo{})
 		rec.Resp = fmt.Sprintf("height=%d apphash=%X", r.LastBlockHeight, r.LastBlockAppHash)
 		rec.H = r.LastBlockHeight
 		rec.Req = hex.EncodeToString(r.LastBlockAppHash)
@@ -267,7 +276,7 @@ func (c *Chain) InitChain() (rec CallRec) {
 	}
 	func() {
 		defer catch(&rec)
-		r := c.App.InitChain(abcitypes.RequestInitChain{
+		r := c.api().InitChain(abcitypes.RequestInitChain{
 			Time: time.Unix(c.Gen.GenTime, 0).UTC(), ChainId: c.Gen.ChainID, Validators: vus,
 			AppStateBytes: c.Gen.appState(), InitialHeight: 1,
 		})
@@ -353,7 +362,7 @@ func (c *Chain) BeginBlock(o BlockOpts) (rec CallRec) {
 	rec.Req = fmt.Sprintf("proposer=%s absent=%v evidence=%v", o.Proposer, o.Absent, o.Evidence)
 	func() {
 		defer catch(&rec)
-		_ = c.App.BeginBlock(req)
+		_ = c.api().BeginBlock(req)
 		rec.Resp = "ok"
 	}()
 	c.InBlock = true
@@ -371,7 +380,7 @@ func (c *Chain) DeliverRaw(bz []byte, tag string) (rec CallRec, resp abcitypes.R
 	c.TxIdx++
 	func() {
 		defer catch(&rec)
-		resp = c.App.DeliverTx(abcitypes.RequestDeliverTx{Tx: bz})
+		resp = c.api().DeliverTx(abcitypes.RequestDeliverTx{Tx: bz})
 		rec.Code = resp.Code
 		rec.Log = resp.Log
 		rec.Resp = fmt.Sprintf("code=%d data=%X gasWanted=%d gasUsed=%d", resp.Code, resp.Data, resp.GasWanted, resp.GasUsed)
@@ -386,7 +395,7 @@ func (c *Chain) EndBlock() (rec CallRec) {
 	var ups abcitypes.ValidatorUpdates
 	func() {
 		defer catch(&rec)
-		r := c.App.EndBlock(abcitypes.RequestEndBlock{Height: h})
+		r := c.api().EndBlock(abcitypes.RequestEndBlock{Height: h})
 		ups = r.ValidatorUpdates
 		var parts []string
 		for _, u := range ups {
@@ -447,7 +456,7 @@ func (c *Chain) Commit() (rec CallRec) {
 	rec = CallRec{Kind: "Commit", H: h}
 	func() {
 		defer catch(&rec)
-		r := c.App.Commit()
+		r := c.api().Commit()
 		rec.Resp = fmt.Sprintf("apphash=%X", r.Data)
 		c.AppHash = r.Data
 	}()
@@ -465,7 +474,7 @@ func (c *Chain) CheckTxRaw(bz []byte, tag string) (rec CallRec) {
 	rec = CallRec{Kind: "CheckTx", H: c.Height, Req: tag, Inject: true}
 	func() {
 		defer catch(&rec)
-		r := c.App.CheckTx(abcitypes.RequestCheckTx{Tx: bz, Type: abcitypes.CheckTxType_New})
+		r := c.api().CheckTx(abcitypes.RequestCheckTx{Tx: bz, Type: abcitypes.CheckTxType_New})
 		rec.Code = r.Code
 		rec.Log = r.Log
 		rec.Resp = fmt.Sprintf("code=%d data=%X gasWanted=%d gasUsed=%d", r.Code, r.Data, r.GasWanted, r.GasUsed)
@@ -478,7 +487,7 @@ func (c *Chain) Query(path string, data []byte, height int64) (rec CallRec, resp
 	rec = CallRec{Kind: "Query", H: height, Req: fmt.Sprintf("%s/%X@%d", path, data, height), Inject: true}
 	func() {
 		defer catch(&rec)
-		resp = c.App.Query(abcitypes.RequestQuery{Path: path, Data: data, Height: height})
+		resp = c.api().Query(abcitypes.RequestQuery{Path: path, Data: data, Height: height})
 		rec.Code = resp.Code
 		rec.Log = resp.Log
 		rec.Resp = fmt.Sprintf("code=%d value=%s", resp.Code, string(resp.Value))
